@@ -366,7 +366,7 @@ func genEnumPartitions(r *Rng, prop, phase string) []*Scenario {
 // ---- C04 -------------------------------------------------------------------
 
 func genWalkScn(r *Rng, nblocks int) *WalkScn {
-	ws := &WalkScn{View: r.Pick([]string{"default", "default", "virtual-root", "virtual-root", "reversed", "filtered", "count-only", "child-only", "virtual-mixed"})}
+	ws := &WalkScn{View: r.Pick([]string{"default", "default", "virtual-root", "virtual-root", "reversed", "filtered", "count-only", "child-only", "virtual-mixed", "grafted"})}
 	ws.Block = r.Intn(nblocks + 1)
 	ws.HideSeed = r.U64()
 	ws.PreNil = r.Chance(0.08)
